@@ -89,6 +89,8 @@ class Lean:
         lock = self._locked()
         try:
             res["tables_changed"] = extract.write_tables(REPO, VERIF)
+            import py2lean
+            res["source_translation_changed"] = py2lean.write(REPO, VERIF)
             import gen_roots
             gen_roots.main()
             t0 = time.time()
